@@ -189,6 +189,7 @@ func c07AuthDiffOK(e *L2Env, before, after c07Snap, cs *c07Case, alsoAllowed str
 }
 
 type c07 struct {
+	preGas uint64 // when > 0, runCase delivers on a meter that already consumed this much
 	run        *mon.Run
 	rng        *mon.Rand
 	base       *L2Env
@@ -258,7 +259,11 @@ func (c *c07) runCase(cs *c07Case, faultAt int, kind sim.FaultKind) (outcome, de
 		return nil
 	}
 	l2.F.Arm(faultAt, kind)
-	res = l2.DeliverGas(200_000_000, cs.msg)
+	if c.preGas > 0 {
+		res = l2.DeliverGasPre(200_000_000+c.preGas, c.preGas, cs.msg)
+	} else {
+		res = l2.DeliverGas(200_000_000, cs.msg)
+	}
 	calls = append([]sim.Call(nil), l2.F.Calls...)
 	fired, firedCall = l2.F.Fired, l2.F.FiredC
 	l2.F.Disarm()
@@ -322,6 +327,17 @@ func (c *c07) exercise(cs *c07Case, enumerateFaults bool) {
 			b := c.base.Branch()
 			rb := b.L2.DeliverGas(200_000_000, &plain)
 			c.gasCheck(cs, res, rb.GasUsed, tr)
+			// the same deposit as a later message of a transaction whose meter already carries consumption: outcome, gas
+			// charged for it and the hook's charge must be the same
+			const pre = 7_000_000
+			c.preGas = pre
+			o2, d2, r2, _, _, _, _, _, _ := c.runCase(cs, -1, sim.FaultError)
+			c.preGas = 0
+			run.Evaluations++
+			ptr := append(append([]string(nil), tr...), fmt.Sprintf("same message on a meter that already consumed %d gas -> %s %s, gas %d (fresh meter: %d)", pre, o2, d2, r2.GasUsed-pre, res.GasUsed))
+			run.Check("C07.gas_independent_of_earlier_consumption", o2 == outcome && r2.GasUsed-pre == res.GasUsed, "c07.gas_depends_on_meter_history", ptr, "outcome/gas of the deposit depend on what the transaction's meter had consumed before: %s/%d vs %s/%d", outcome, res.GasUsed, o2, r2.GasUsed-pre)
+			r2.GasUsed -= pre
+			c.gasCheck(cs, r2, rb.GasUsed, ptr)
 		}
 	}
 	run.Distinct("case/" + cs.name + "/" + outcome)
@@ -574,7 +590,7 @@ func checkC07(run *mon.Run, rng *mon.Rand, thorough bool) {
 	run.Assumptions = []string{"outer gas limit 200M covers handler + hook allowance (premise of the property)",
 		"sites outside the sentence 'failing hook or failing mint/transfer' (zero-amount account creation, denom metadata, reclaim/burn) are asserted as legal-outcome-or-atomic-error-with-successful-retry; see DESIGN.md C07",
 		"a newly created recipient account may remain after a refund (balances, supply and hook-target state may not)"}
-	for _, c := range []string{"C07.outcome_is_credit_or_refund", "C07.expected_outcome", "C07.only_signer_account_touched", "C07.bridge_not_stalled", "C07.hook_gas_bounded", "C07.total_gas_bounded", "C07.contained_fault_refunds", "C07.uncontained_site_legal_or_atomic"} {
+	for _, c := range []string{"C07.outcome_is_credit_or_refund", "C07.expected_outcome", "C07.only_signer_account_touched", "C07.bridge_not_stalled", "C07.hook_gas_bounded", "C07.total_gas_bounded", "C07.contained_fault_refunds", "C07.uncontained_site_legal_or_atomic", "C07.gas_independent_of_earlier_consumption"} {
 		run.Declare(c, 20)
 	}
 	base := newL2Env(L2EnvOpts{})
@@ -590,6 +606,7 @@ func checkC07(run *mon.Run, rng *mon.Rand, thorough bool) {
 	base.L2.FundModule("distribution", sdk.NewCoin(base.L2Denom("uinit"), math.NewIntFromUint64(1<<63).MulRaw(4)))
 	base.L2.BK.SetDenomMetaData(base.L2.Ctx, banktypes.Metadata{Base: base.L2Denom("upremeta"), Display: "premeta", Name: "pre-registered", Symbol: "PRE",
 		DenomUnits: []*banktypes.DenomUnit{{Denom: base.L2Denom("upremeta"), Exponent: 0}, {Denom: "premeta", Exponent: 6}}})
+	c07StaleHook(run, base)
 	cases := c.buildCases(thorough)
 	run.Extra["input_classes"] = len(cases)
 	for _, cs := range cases {
@@ -672,6 +689,56 @@ func checkC07(run *mon.Run, rng *mon.Rand, thorough bool) {
 }
 
 // rewriteFrom replaces the from_address of the first MsgSend inside signed tx bytes (signatures are kept as they are).
+// c07StaleHook: a well-signed hook that fails at message execution consumes its signer's sequence, so the same payload
+// can never run later (when the signer could afford it), whoever attaches it to whatever deposit.
+func c07StaleHook(run *mon.Run, base *L2Env) {
+	run.Declare("C07.failed_hook_consumes_signer_sequence", 4)
+	run.Declare("C07.stale_hook_not_replayable", 4)
+	for vi, variant := range []string{"overspend", "second-message-fails"} {
+		for _, later := range []string{"zero-amount deposit by a stranger", "ordinary deposit"} {
+			e := base.Branch()
+			l2 := e.L2
+			u, target := e.Users[2], sim.NewAccount("c07-stale-target")
+			d := e.L2Denom("uinit")
+			l2.Fund(u.Addr, sdk.NewCoin(d, math.NewInt(10)))
+			n, sq, ok := l2.AccNumSeq(u.Addr)
+			if !ok {
+				panic("no account")
+			}
+			msgs := []sdk.Msg{banktypes.NewMsgSend(u.Addr, target.Addr, sdk.NewCoins(sdk.NewCoin(d, math.NewInt(5_000))))}
+			if variant == "second-message-fails" {
+				msgs = []sdk.Msg{banktypes.NewMsgSend(u.Addr, target.Addr, sdk.NewCoins(sdk.NewCoin(d, math.NewInt(3)))), banktypes.NewMsgSend(u.Addr, target.Addr, sdk.NewCoins(sdk.NewCoin(d, math.NewInt(5_000))))}
+			}
+			payload, err := l2.SignTx(u, n, sq, sim.L2ChainID, 500_000, msgs...)
+			if err != nil {
+				panic(err)
+			}
+			r1 := l2.DeliverGas(200_000_000, e.DepositMsg(e.Executors[0], e.NextL1Seq(), "l1sender", u.String(), "uinit", math.NewInt(100), payload))
+			run.Evaluations++
+			_, sq1, _ := l2.AccNumSeq(u.Addr)
+			tr := []string{fmt.Sprintf("deposit of 100 to a recipient holding 10, hook [%s] signed with sequence %d -> %s %s; recipient holds %s, signer sequence now %d", variant, sq, r1.Class, r1.ErrString(), l2.BK.GetBalance(l2.Ctx, u.Addr, d).Amount, sq1)}
+			if r1.Class != sim.OK || !l2.BK.GetBalance(l2.Ctx, u.Addr, d).Amount.Equal(math.NewInt(10)) {
+				run.Count("C07.stale_hook_scenario_not_as_scripted")
+				continue // the classifier of the main section judges this; the scenario needs a refunded deposit
+			}
+			run.Check("C07.failed_hook_consumes_signer_sequence", sq1 == sq+1, "c07.failed_hook_sequence_not_consumed", tr, "a well-signed hook failed at message execution and the deposit was refunded, but the signer's sequence is %d (was %d): the signed payload stays valid", sq1, sq)
+			// later the signer can afford the transfer; the stale payload is attached to another deposit
+			l2.Fund(u.Addr, sdk.NewCoin(d, math.NewInt(1_000_000)))
+			amt, from := math.NewInt(50), "l1sender"
+			if later == "zero-amount deposit by a stranger" {
+				amt, from = math.ZeroInt(), "l1stranger"
+			}
+			before := l2.BK.GetBalance(l2.Ctx, target.Addr, d).Amount
+			r2 := l2.DeliverGas(200_000_000, e.DepositMsg(e.Executors[0], e.NextL1Seq(), from, u.String(), "uinit", amt, payload))
+			run.Evaluations++
+			got := l2.BK.GetBalance(l2.Ctx, target.Addr, d).Amount.Sub(before)
+			tr = append(tr, fmt.Sprintf("signer funded; the same payload attached to a %s -> %s; the payload's target received %s", later, r2.Class, got))
+			run.Check("C07.stale_hook_not_replayable", got.IsZero(), "c07.stale_hook_executed", tr, "a hook payload whose first execution failed was executed later (%s): its transfer of %s went through", later, got)
+			run.Distinct(fmt.Sprintf("stale-hook/%d/%s", vi, later))
+		}
+	}
+}
+
 func rewriteFrom(e *L2Env, bz []byte, from string) []byte {
 	var raw sdktx.TxRaw
 	if err := raw.Unmarshal(bz); err != nil {
